@@ -65,7 +65,7 @@ static void build_api(Geometry& geo,const std::string& path) {
     geo.finalize();
 }
 
-// ints: op(1 files / 2 api) id ndip nsens [old_ordering nobs ecog] | floats: dipoles (pos,moment)*ndip, sensors (xyz)*nsens
+// ints: op(1 files / 2 api / 3 load(geom) + set_conductivity + finalize twice) id ndip nsens [old_ordering nobs ecog] | floats: dipoles (pos,moment)*ndip, sensors (xyz)*nsens
 static FWire c06_gain(ll op,Reader& r,FReader& fr) {
     ll id = r.z(); size_t nd = r.n(), ns = r.n(); const bool old_ordering = !r.done() && r.z()!=0; const size_t nobs = r.done() ? 0 : r.n(); const bool ecog = !r.done() && r.z()!=0;
     Matrix dip(nd,6); for (size_t i=0;i<nd;++i) for (size_t k=0;k<6;++k) dip(i,k) = fr.x();
@@ -75,6 +75,19 @@ static FWire c06_gain(ll op,Reader& r,FReader& fr) {
     FWire out;
     Geometry geo;
     if (op==1) geo.load(d+"/model.geom",d+"/model.cond",old_ordering);
+    else if (op==3) {
+        // the geometry alone is loaded (and finalized without conductivities), the conductivities are then set through the
+        // API from the name/value lines of model.cond, and finalize() is called again - twice
+        geo.load(d+"/model.geom");
+        std::ifstream cf(d+"/model.cond"); std::string line;
+        while (std::getline(cf,line)) {
+            std::istringstream ls(line); std::string name; double v;
+            if (!(ls >> name) || name[0]=='#' || !(ls >> v)) continue;
+            for (auto& dom : geo.domains()) if (dom.name()==name && !dom.has_conductivity()) dom.set_conductivity(v);
+        }
+        geo.finalize(old_ordering);
+        geo.finalize(old_ordering);
+    }
     else       build_api(geo,d+"/api.txt");
     SymMatrix HM = HeadMat(geo);
     HM.invert();
@@ -141,7 +154,7 @@ int main(int argc,char** argv) {
     return run_cases_f(argv[1],[](const std::string& comp,Reader& r,FReader& fr)->FWire {
         if (comp!="c06") throw Reader::Malformed();
         ll op = r.z();
-        if (op==1 || op==2) return c06_gain(op,r,fr);
+        if (op==1 || op==2 || op==3) return c06_gain(op,r,fr);
         throw Reader::Malformed();
     });
 }
